@@ -106,6 +106,17 @@ DEFAULT_PORTS = {
 }
 
 
+def bracket_ipv6_literal(host: bytes) -> bytes:
+    """
+    `URL.host` holds IPv6 literals without their brackets, which is the form
+    needed for connecting. Wherever the host is written next to a port it has
+    to be bracketed again: `[::1]:8080`, not `::1:8080`.
+    """
+    if b":" in host and not host.startswith(b"["):
+        return b"[%b]" % host
+    return host
+
+
 def include_request_headers(
     headers: list[tuple[bytes, bytes]],
     *,
@@ -116,10 +127,11 @@ def include_request_headers(
 
     if b"host" not in headers_set:
         default_port = DEFAULT_PORTS.get(url.scheme)
+        host = bracket_ipv6_literal(url.host)
         if url.port is None or url.port == default_port:
-            header_value = url.host
+            header_value = host
         else:
-            header_value = b"%b:%d" % (url.host, url.port)
+            header_value = b"%b:%d" % (host, url.port)
         headers = [(b"Host", header_value)] + headers
 
     if (
@@ -302,9 +314,10 @@ class URL:
         )
 
     def __bytes__(self) -> bytes:
+        host = bracket_ipv6_literal(self.host)
         if self.port is None:
-            return b"%b://%b%b" % (self.scheme, self.host, self.target)
-        return b"%b://%b:%d%b" % (self.scheme, self.host, self.port, self.target)
+            return b"%b://%b%b" % (self.scheme, host, self.target)
+        return b"%b://%b:%d%b" % (self.scheme, host, self.port, self.target)
 
     def __repr__(self) -> str:
         return (
